@@ -326,7 +326,7 @@ func (n *c25Node) start(t *testing.T) {
 	cfg.MaxBatchSz = n.batchSz
 	cfg.MaxBatchDelay = time.Hour // the delay timer never fires by itself: the `timer` op flushes
 	cfg.HighWatermarkInterval = n.tick
-	cfg.TransmitTimeout = 5 * time.Second
+	cfg.TransmitTimeout = 60 * time.Second
 	cfg.TransmitMinBackoff = time.Millisecond
 	cfg.TransmitMaxBackoff = 2 * time.Millisecond
 	if n.maxRetries > 0 {
@@ -390,10 +390,7 @@ func (n *c25Node) feed(e c25Entry) {
 
 func (n *c25Node) barrier() bool {
 	// a no-op leadership message: once it has been taken, mainLoop has finished whatever it was doing
-	deadline := time.Now().Add(5 * time.Second)
-	if c25Pad > 0 {
-		deadline = time.Now().Add(15 * time.Second) // mainLoop may be compressing tens of MiB
-	}
+	deadline := time.Now().Add(30 * time.Second) // generous: only a service that is stuck runs into it
 	n.svc.leaderObCh <- n.leader
 	for len(n.svc.leaderObCh) > 0 {
 		if time.Now().After(deadline) {
@@ -425,10 +422,7 @@ func (n *c25Node) vec() c25Vec {
 
 // settle waits for the quiescent point the model describes. ok=false: it never came.
 func (n *c25Node) settle() bool {
-	deadline := time.Now().Add(10 * time.Second)
-	if c25Pad > 0 {
-		deadline = time.Now().Add(20 * time.Second)
-	}
+	deadline := time.Now().Add(30 * time.Second)
 	win := time.Duration(n.settleMs) * time.Millisecond
 	if n.maxRetries > 0 && win < 15*time.Millisecond {
 		win = 15 * time.Millisecond // several retry intervals: the leader gives up on event after event
@@ -532,7 +526,7 @@ func (n *c25Node) flushBatcher(sync bool) bool {
 		ch <- resp
 		select {
 		case <-resp:
-		case <-time.After(5 * time.Second):
+		case <-time.After(30 * time.Second):
 			return false
 		}
 		// the marker is a queued object: one request is emitted (by size or by the Flush).
@@ -589,7 +583,7 @@ func (n *c25Node) setLeader(b bool) bool {
 		n.tenure++
 	}
 	n.svc.leaderObCh <- b
-	deadline := time.Now().Add(5 * time.Second)
+	deadline := time.Now().Add(30 * time.Second)
 	for n.svc.IsLeader() != b || len(n.svc.leaderObCh) > 0 {
 		if time.Now().After(deadline) {
 			return false
@@ -692,7 +686,7 @@ func (n *c25Node) applyOnly(t *testing.T, op string) bool {
 			}
 			h := n.svc.HighWatermark()
 			from := n.cl.nBroadcasts()
-			deadline := time.Now().Add(5 * time.Second)
+			deadline := time.Now().Add(30 * time.Second)
 			for n.cl.broadcastsOfSince(h, from) < 2 {
 				if time.Now().After(deadline) {
 					return false
@@ -1127,6 +1121,7 @@ func TestVerifC25(t *testing.T) {
 		{1, []string{"leader 1", "endpoint 0", "entry 5 0 1", "entry 6 0 1", "leader 0", "endpoint 1", "leader 1", "timer"}, false},
 	}
 	hists := vfScale(60, 1500)
+	verySlow, abandonedTries := 0, 0
 	tStart := time.Now()
 	budget := time.Duration(vfScale(120, 1200)) * time.Second // time-box: the machine may be shared
 	for i := 0; i < len(directed)+hists; i++ {
@@ -1171,6 +1166,7 @@ func TestVerifC25(t *testing.T) {
 		}
 		h := c25RunHistory(t, root, i, b, tick, ops, 2, mr)
 		if !h.ok {
+			abandonedTries++
 			// one more try with a much longer stability window before calling it a harness problem
 			h = c25RunHistory(t, root, i, b, tick, ops, 40, mr)
 			if !h.ok {
@@ -1184,6 +1180,15 @@ func TestVerifC25(t *testing.T) {
 			if h2.ok {
 				h = h2
 				rep.Count("histories-rerun-with-long-settle-window")
+			}
+			// still different: once more with a window far beyond any scheduling delay of a busy
+			// machine, so that a difference that remains is not one of wall-clock speed
+			if mo, err := vfModel("cdcpipe", h.ops); err == nil && vfFirstDiff(h.out, mo) >= 0 && verySlow < 6 {
+				verySlow++
+				if h3 := c25RunHistory(t, root, i, b, tick, ops, 400, mr); h3.ok {
+					h = h3
+					rep.Count("histories-rerun-with-very-long-settle-window")
+				}
 			}
 		}
 		lost, mis := c25Judge(rep, h, "")
@@ -1244,6 +1249,8 @@ func TestVerifC25(t *testing.T) {
 			rep.Sample(map[string]interface{}{"ops": vfTrunc(h.ops), "impl": vfTrunc(h.out)})
 		}
 	}
+	rep.CountN("histories-first-try-without-quiescent-point", abandonedTries)
+
 	// ---- large items ------------------------------------------------------------------------
 	// (a) flate round trip, the law the model assumes of the FIFO's stored form: for inputs of
 	// 9-16 MiB (and small ones) Decompress(Compress(x)) = x.
